@@ -164,6 +164,9 @@ class Limit:
             return
 
         sb_idx = self._idx_to_sb_idx(index)
+        if sb_idx >= len(self._scoreboard):
+            # The project end may have been extended after the limit was created
+            self._scoreboard.extend([0] * (sb_idx + 1 - len(self._scoreboard)))
         if 0 <= sb_idx < len(self._scoreboard):
             self._dirty = True
             self._scoreboard[sb_idx] += 1
@@ -218,10 +221,11 @@ class Limit:
             return True
         else:
             sb_idx = self._idx_to_sb_idx(index)
-            if sb_idx < 0 or sb_idx >= len(self._scoreboard):
-                return True  # Outside interval, OK
+            if sb_idx < 0:
+                return True  # Before the interval, OK
 
-            count = self._scoreboard[sb_idx]
+            # Periods beyond the counters created so far have not been used yet
+            count = self._scoreboard[sb_idx] if sb_idx < len(self._scoreboard) else 0
             if self.upper:
                 return count < self.value
             else:
